@@ -114,6 +114,9 @@ def classify(rec):
         ks.append("target=" + tx["target"] + ("/mode%d" % tx["mode"] if tx["target"] in ("x", "create") else ""))
         p = _eff_price(tx, int(d["basefee"]))
         ks.append("price:" + ("base" if p == int(d["basefee"]) else ("multiple" if p % K == 0 else "odd")))
+        nominal = int(tx["cap"]) if tx["ty"] == 2 else int(tx["gp"])
+        if nominal < int(d["basefee"]):
+            ks.append("nominal-price-below-base/type=%d" % tx["ty"])
         v = int(d["value"])
         ks.append("value:" + ("0" if v == 0 else ("sub-unibi" if v < K else ("whole" if v % K == 0 else "remainder"))))
         ds = int(o["supply_after"]) - int(o["supply_before"])
